@@ -206,6 +206,20 @@ def generate(tier):
                 for discs in disc_patterns(v, repr, False)[:4]:
                     k += 1
                     cases.append(build(vs, repr, discs, cfgs[k % 4]))
+    # F: twelve variants (two-digit variant indices), implicit / decreasing / rotated discriminants, unit and mixed payloads
+    for repr in (None, 'u8', 'i8'):
+        for dk, discs in (('implicit', [None] * 12), ('decreasing', [20 - i for i in range(12)]), ('rotated', [((i + 7) % 12) for i in range(12)]),
+                          ('tail', [None] * 10 + [0 if repr != 'i8' else -5, None] if False else [5] + [None] * 9 + [0, None])):
+            if len(set(resolve(discs))) != 12:
+                continue
+            k += 1
+            cases.append(build([('u', [])] * 12, repr, discs, cfgs[k % 4]))
+            if repr:
+                vs = [('u', []), ('t', ['bool']), ('n', ['u8'])] * 4
+                cases.append(build(vs, repr, discs, cfgs[(k + 1) % 4]))
+        if repr is None:
+            vs = [('u', []), ('t', ['bool']), ('n', ['u8'])] * 4
+            cases.append(build(vs, None, [None] * 12, 'OP'))
     seen, out = set(), []
     for c in cases:
         if c.key not in seen:
@@ -214,7 +228,7 @@ def generate(tier):
     return out
 
 
-RULE = ('four- and five-variant enums (all-unit x repr x discriminant patterns; mixed payloads in every rotation); enums with V<=3 variants over variant shapes {unit, tuple(P), named{P}, tuple(P,P)} x payload P in {bool, u8, i8, char, '
+RULE = ('twelve-variant enums (implicit, decreasing, rotated discriminants); four- and five-variant enums (all-unit x repr x discriminant patterns; mixed payloads in every rotation); enums with V<=3 variants over variant shapes {unit, tuple(P), named{P}, tuple(P,P)} x payload P in {bool, u8, i8, char, '
         '&\'static u8, NonZeroU8, Option<NonZeroU8>, Option<bool>, (), u16, u32, nested enum} x #[repr] in {none, C, u8..i64, usize, isize, '
         '"C, u8", align(N), transparent} x discriminant patterns {implicit; up to the type maximum by implicit continuation; decreasing; '
         'negative; minimum; gaps with implicit continuation; values that read as negative i8} (only those rustc accepts) x {PartialOrd; Ord + '
